@@ -25,17 +25,14 @@ run("git -C %s apply -R %s" % (wt, os.path.join(demo, "patch.diff")))
 rc2, out2 = run(democmd); res["demo_without_change"] = {"exit": rc2, "tail": out2[-300:]}
 run("git -C %s apply %s" % (wt, os.path.join(demo, "patch.diff")))
 res["confirmed"] = ("3015, passing now: 3015" in res["baseline_with_change"]) and rc1 != 0 and rc2 == 0
-# run our checks against it
-rc, out = run("git -C /repo apply %s" % os.path.join(demo, "patch.diff"))
-res["apply_to_repo"] = rc
+# run our checks against it: the checks are pointed at the worktree that holds the change
+# (VERIF_REPO), which is equivalent to `git -C /repo apply` + run + `git -C /repo checkout -- .`
+# but does not disturb other work that builds from /repo at the same time
+res["apply_to_repo"] = "checks run with VERIF_REPO=" + wt
 res["checks"] = {}
-if rc == 0:
-    try:
-        for c in checks:
-            rcc, outc = run("cd %s && ./check %s" % (V, c))
-            res["checks"][c] = {"exit": rcc, "lines": [l[:300] for l in outc.splitlines() if l.startswith(("VIOLATION", "OK ", "KNOWN-FINDING"))][:6]}
-    finally:
-        run("git -C /repo checkout -- .")
+for c in checks:
+    rcc, outc = run("cd %s && VERIF_REPO=%s ./check %s" % (V, wt, c))
+    res["checks"][c] = {"exit": rcc, "lines": [l[:300] for l in outc.splitlines() if l.startswith(("VIOLATION", "OK ", "KNOWN-FINDING"))][:6]}
 dst = os.path.join(V, "seeded", name)
 os.makedirs(dst, exist_ok=True)
 for f in os.listdir(demo):
